@@ -8,7 +8,8 @@ violation / known-finding protocol (DESIGN.md section 2).
 import sys, os, json, hashlib, time, importlib, subprocess, threading, traceback, collections, glob, signal
 
 VERIF = os.path.dirname(os.path.dirname(os.path.abspath(__file__)))
-BUILD = os.path.join(VERIF, "build")
+BUILD = os.environ.get("VERIF_BUILD") or os.path.join(VERIF, "build")
+OUT = os.environ.get("VERIF_OUT") or VERIF  # evidence/ and replays/<ID>/found/ are written below OUT
 RUN = os.path.join(BUILD, "run")
 CASE_TIMEOUT = float(os.environ.get("VERIF_CASE_TIMEOUT", "600"))
 
@@ -207,7 +208,7 @@ def run_replay(pid, path, times=1, timeout=900):
 
 
 def save_replay(pid, fail, subdir=""):
-    d = os.path.join(VERIF, "replays", pid, subdir)
+    d = os.path.join(OUT, "replays", pid, subdir)
     os.makedirs(d, exist_ok=True)
     path = os.path.join(d, sha(fail["case"]) + ".json")
     with open(path, "w") as f:
@@ -335,8 +336,8 @@ def parent_main(pid, tier):
         cov.setdefault(kk, vv)
     ev = {"property_id": pid, "tier": tier, "seed": seed, "level": prop.LEVEL, "coverage": cov,
           "assumptions": list(prop.ASSUMPTIONS), "wall_s": round(wall, 2), "violations": len(violations)}
-    os.makedirs(os.path.join(VERIF, "evidence"), exist_ok=True)
-    with open(os.path.join(VERIF, "evidence", pid + ".json"), "w") as f:
+    os.makedirs(os.path.join(OUT, "evidence"), exist_ok=True)
+    with open(os.path.join(OUT, "evidence", pid + ".json"), "w") as f:
         json.dump(ev, f, indent=1, default=str)
     for l in known_lines:
         print(l)
